@@ -11,6 +11,20 @@ pub struct Plan {
     pub directed: Vec<(&'static str, Directed)>,
     pub quick_histories: u64,
     pub thorough_histories: u64,
+    /// rounds of the threaded substrate S5 (quick, thorough) on top of the stepped histories
+    pub s5: Option<(u64, u64, crate::sub::s5::Plan)>,
+}
+
+pub fn s5_default(hostile: bool, group_members: usize) -> crate::sub::s5::Plan {
+    crate::sub::s5::Plan {
+        publishers: 4,
+        subscribers: 5,
+        group_members,
+        per_publisher: 400,
+        hostile,
+        topics: vec!["a", "a/b", "a/c", "b"],
+        filters: vec!["a/+", "a/#", "#", "a/b", "+"],
+    }
 }
 
 fn judge_history(ctx: &Ctx, stats: &mut Stats, h: &History) {
@@ -39,6 +53,16 @@ fn judge_history(ctx: &Ctx, stats: &mut Stats, h: &History) {
 }
 
 pub fn run(ctx: &Ctx, plan: &Plan) -> Stats {
+    let mut stats = run_stepped(ctx, plan);
+    if let Some((q, t, s5plan)) = &plan.s5 {
+        // OS-thread interleavings: real Router::spawn() + client threads, offline checker
+        let rounds = ctx.size(*q, *t);
+        crate::sub::s5::run_rounds(ctx, &mut stats, rounds, s5plan);
+    }
+    stats
+}
+
+fn run_stepped(ctx: &Ctx, plan: &Plan) -> Stats {
     let total = ctx.size(plan.quick_histories, plan.thorough_histories);
     let shards = if ctx.quick() { ctx.threads.min(8) } else { ctx.threads };
     sharded(ctx, shards, |shard, seed| {
